@@ -58,14 +58,22 @@ theorem proc_modProc (w : World) (p q : Pid) (f : Proc → Proc) :
   · have : ¬ q = p := fun h => hq h.symm
     simp [hq, this]
 
-@[simp] theorem modProc_res (w : World) (p : Pid) (f : Proc → Proc) : (w.modProc p f).res = w.res := rfl
-@[simp] theorem modProc_pools (w : World) (p : Pid) (f : Proc → Proc) : (w.modProc p f).pools = w.pools := rfl
-@[simp] theorem modProc_bufs (w : World) (p : Pid) (f : Proc → Proc) : (w.modProc p f).bufs = w.bufs := rfl
-@[simp] theorem modProc_oqs (w : World) (p : Pid) (f : Proc → Proc) : (w.modProc p f).oqs = w.oqs := rfl
-@[simp] theorem modProc_pqs (w : World) (p : Pid) (f : Proc → Proc) : (w.modProc p f).pqs = w.pqs := rfl
-@[simp] theorem modProc_ev (w : World) (p : Pid) (f : Proc → Proc) : (w.modProc p f).ev = w.ev := rfl
-@[simp] theorem modProc_now (w : World) (p : Pid) (f : Proc → Proc) : (w.modProc p f).now = w.now := rfl
-@[simp] theorem modProc_guards (w : World) (p : Pid) (f : Proc → Proc) : (w.modProc p f).guards = w.guards := rfl
+@[simp] theorem modProc_res (w : World) (p : Pid) (f : Proc → Proc) : (w.modProc p f).res = w.res := by
+  unfold World.modProc; exact rfl
+@[simp] theorem modProc_pools (w : World) (p : Pid) (f : Proc → Proc) : (w.modProc p f).pools = w.pools := by
+  unfold World.modProc; exact rfl
+@[simp] theorem modProc_bufs (w : World) (p : Pid) (f : Proc → Proc) : (w.modProc p f).bufs = w.bufs := by
+  unfold World.modProc; exact rfl
+@[simp] theorem modProc_oqs (w : World) (p : Pid) (f : Proc → Proc) : (w.modProc p f).oqs = w.oqs := by
+  unfold World.modProc; exact rfl
+@[simp] theorem modProc_pqs (w : World) (p : Pid) (f : Proc → Proc) : (w.modProc p f).pqs = w.pqs := by
+  unfold World.modProc; exact rfl
+@[simp] theorem modProc_ev (w : World) (p : Pid) (f : Proc → Proc) : (w.modProc p f).ev = w.ev := by
+  unfold World.modProc; exact rfl
+@[simp] theorem modProc_now (w : World) (p : Pid) (f : Proc → Proc) : (w.modProc p f).now = w.now := by
+  unfold World.modProc; exact rfl
+@[simp] theorem modProc_guards (w : World) (p : Pid) (f : Proc → Proc) : (w.modProc p f).guards = w.guards := by
+  unfold World.modProc; exact rfl
 @[simp] theorem modProc_size (w : World) (p : Pid) (f : Proc → Proc) : (w.modProc p f).procs.size = w.procs.size := by
   simp [World.modProc]
 
@@ -95,8 +103,10 @@ theorem modProc_same (w : World) (p : Pid) (f : Proc → Proc) (hf : ∀ x, (f x
   unfold World.fail; split <;> rfl
 @[simp] theorem fail_ev (w : World) (m : String) : (w.fail m).ev = w.ev := by
   unfold World.fail; split <;> rfl
-@[simp] theorem emit_procs (w : World) (m : String) : (w.emit m).procs = w.procs := rfl
-@[simp] theorem emit_ev (w : World) (m : String) : (w.emit m).ev = w.ev := rfl
+@[simp] theorem emit_procs (w : World) (m : String) : (w.emit m).procs = w.procs := by
+  unfold World.emit; exact rfl
+@[simp] theorem emit_ev (w : World) (m : String) : (w.emit m).ev = w.ev := by
+  unfold World.emit; exact rfl
 
 /-! ### events -/
 
